@@ -40,6 +40,10 @@ func (w *World) materialise(ka *keyAllocator) error {
 			cp.C = w.CloneOf.Certs[pos].C
 			continue
 		}
+		if w.UseSysRoot && pos == n-1 && n > 1 {
+			cp.C = sysRoot
+			continue
+		}
 		spec := &CertSpec{
 			CN: fmt.Sprintf("w%d-cert%d", w.ID, pos), Key: ka.get(cp.KeyKind), Serial: cp.Serial,
 			NotBefore: nb, NotAfter: na, MaxPathLen: -1,
@@ -230,6 +234,10 @@ func (w *World) applyTSADefect(spec *CertSpec, pos, n int, ka *keyAllocator) {
 		if issuerOfLeaf {
 			spec.NoKeyUsage = true
 		}
+	case TDCAEKUExcludes:
+		if issuerOfLeaf {
+			spec.EKU = []x509.ExtKeyUsage{x509.ExtKeyUsageServerAuth, x509.ExtKeyUsageClientAuth}
+		}
 	}
 }
 
@@ -322,6 +330,9 @@ func decodeOCSPReq(req *http.Request, body []byte) *ocspReqInfo {
 
 func (w *World) invalidityFor(kind int) time.Time {
 	st := stBase
+	if !w.InvBase.IsZero() {
+		st = w.InvBase
+	}
 	if w.HasST {
 		st = w.ST
 	}
